@@ -211,6 +211,13 @@ def families(canary_path):
                '<polygon points="1,2,3"/>', '<polyline points="a b"/>', '<svg overflow="scroll"><rect width="1" height="1"/></svg>',
                '<svg preserveAspectRatio="bogus" viewBox="0 0 1 1" width="2" height="3"><rect width="1" height="1"/></svg>']:
         out.append(("unsupported", '<svg %s viewBox="0 0 9 9">%s<rect width="2" height="2"/></svg>' % (NS, el)))
+    # unsupported content below a group that survives simplification (0 < opacity < 1, >= 2 children)
+    for el in ['<text>x</text>', '<image width="1" height="1"/>', '<mask id="m"><rect width="1" height="1"/></mask>',
+               '<foreignObject width="2" height="2"/>', '<bogus/>', '<a><rect width="2" height="2"/></a>']:
+        for body in ('<rect width="4" height="4"/><rect x="2" y="2" width="4" height="4" fill="blue"/>%s',
+                     '<rect width="4" height="4"/><g opacity="0.5"><rect x="1" width="2" height="2"/><rect x="3" y="3" width="2" height="2"/>%s</g>'):
+            out.append(("unsupported", '<svg %s viewBox="0 0 9 9"><g opacity="0.5">%s</g><rect x="6" y="6" width="2" height="2"/></svg>'
+                        % (NS, body % el)))
     ents = [
         '<!DOCTYPE svg [<!ENTITY a "inner"><!ENTITY b "&a;&a;">]>',
         '<!DOCTYPE svg [<!ENTITY x SYSTEM "file://%s">]>' % canary_path,
